@@ -381,7 +381,7 @@ impl ServerEvent {
                 }
             }
             SendMode::Direct(client) => {
-                if client != SERVER {
+                if client != SERVER && clients.contains(client) {
                     server.send(client, self.channel_id, message.clone());
                 }
             }
